@@ -312,6 +312,16 @@ func newC16SSHPeer(auth string, marker []byte, dev sim.Device) (*c16SSHPeer, err
 			}
 			go p.serveRequests(reqs)
 			go func() {
+				// a device answers input only once its shell (or subsystem) is up and has printed
+				// what it prints first: the client may write right after the reply to its shell
+				// request, which serveRequests sends BEFORE it writes the opening bytes.  Without
+				// this wait the answer to that input could overtake the opening bytes (seen under
+				// load: "\r\nrouter#" + "router#", which no prompt pattern matches).
+				select {
+				case <-p.ready:
+				case <-p.stopped:
+					return
+				}
 				buf := make([]byte, 32768)
 				for {
 					n, err := ch.Read(buf)
